@@ -127,6 +127,14 @@ Definition get_symbol (r : reg) (s : string) : res string :=
       | _, _ => Err EKey
       end
   end.
+(** [get_symbol] as the registry answers since the repair of F45: an exact entry of the unit
+    table first, the parsed reading otherwise.  ([get_symbol] above is the parsed reading, which
+    is what the lazily built definition of a prefixed unit uses.) *)
+Definition get_symbol_exact (r : reg) (s : string) : res string :=
+  match r_units r !! s with
+  | Some d => Ok (u_symbol d)
+  | None => get_symbol r s
+  end.
 
 (** [get_name] and the definition it denotes.  Lazily registered prefixed units are a pure
     function of the string, so resolution is modelled without state; the stateful reading
@@ -379,7 +387,11 @@ Definition elab1 (r : reg) (d : rawdef) : res reg :=
 Definition elab (ds : list rawdef) : res reg := foldM elab1 ds empty_reg.
 
 (** [_build_cache] resolves every name referenced by a definition, which lazily registers the
-    prefixed ones ([millimeter], [kilogram], …): they are part of a freshly built registry. *)
+    prefixed ones ([millimeter], [kilogram], …).  Before the repair of F3 these entries were read
+    by name parsing like written definitions ([dekamillimeter] resolved); since the repair they
+    are definitions only, so a freshly built registry answers like [elab ds]: the bundled registry
+    [Gen.DefaultReg.default_reg] is [elab default_raw].  [load] (elaboration followed by
+    [build_cache]) is kept for the models that track the registered names themselves (C08, C10, C13). *)
 Definition build_cache (r : reg) : reg :=
   fold_left (λ r n,
     match r_units r !! n with
